@@ -88,6 +88,7 @@ fn build_validation(validation: &Validation) -> JwtValidation {
     valid.validate_nbf = validation.validate_nbf;
     valid.audiences = validation.aud.clone();
     valid.issuer = validation.iss.clone();
+    valid.subject = validation.sub.clone();
     valid
 }
 
